@@ -3105,7 +3105,8 @@ where
         let reserve = if self.is_empty() {
             iter.size_hint().0
         } else {
-            (iter.size_hint().0 + 1) / 2
+            // (`size_hint` may be as large as `usize::MAX`)
+            iter.size_hint().0.saturating_add(1) / 2
         };
         self.reserve(reserve);
         iter.for_each(move |(k, v)| {
